@@ -75,6 +75,7 @@ func Generate(c Case, keep bool) (dir string, f *vfrun.Failure) {
 		defer os.RemoveAll(filepath.Dir(dir))
 	}
 	for n, content := range c.Files {
+		_ = os.MkdirAll(filepath.Dir(filepath.Join(dir, n)), 0o755)
 		_ = os.WriteFile(filepath.Join(dir, n), []byte(content), 0o644)
 	}
 	if c.UserModel {
@@ -268,13 +269,23 @@ func nonNullObjectCycle(schema *ast.Schema) bool {
 
 func gen(t *rapid.T) Case {
 	hostile := rapid.Bool().Draw(t, "hostile")
-	s := sdlgen.Generate(t, sdlgen.Options{Files: rapid.IntRange(1, 3).Draw(t, "files"), Roots: true, Hostile: hostile, DeprecatedInputs: true, MaxTypes: 12, ExecDirectives: true})
+	// a sixth of the projects keep their schema files under one base name in different directories
+	sameBase := rapid.IntRange(0, 5).Draw(t, "samebase") == 0
+	files := rapid.IntRange(1, 3).Draw(t, "files")
+	if sameBase {
+		files = rapid.IntRange(2, 3).Draw(t, "files-samebase")
+	}
+	s := sdlgen.Generate(t, sdlgen.Options{SameBase: sameBase, Files: files, Roots: true, Hostile: hostile, DeprecatedInputs: true, MaxTypes: 12, ExecDirectives: true})
 	schema, err := loadSchema(s.Files)
 	if err != nil {
 		vfrun.Label("generated-schema-invalid(dropped)")
 		t.Skip("invalid schema: " + err.Error())
 	}
 	c := Case{Files: s.Files, Config: cfggen.Draw(t, "gen", objectFields(schema))}
+	if sameBase {
+		c.Config.SchemaGlob = "./**/*.graphqls"
+		vfrun.Label("same-base-name-files:exec:" + c.Config.ExecLayout)
+	}
 	c.UserModel = rapid.IntRange(0, 2).Draw(t, "usermodel") == 0
 	var inputs []string
 	for n, d := range schema.Types {
